@@ -444,6 +444,47 @@ impl IceConn {
     }
 }
 
+/// Verification accessors (read-only snapshot of the probation table and
+/// public wrappers for crate-private setters). Compiled only with
+/// `--cfg rustrtc_verif`.
+#[cfg(rustrtc_verif)]
+impl IceConn {
+    /// `None` when no probation is in progress, else
+    /// `(total_packets, max_packets, [(addr, first_seq, last_seq, packet_count, consecutive_count, has_marker)])`
+    /// in arrival order.
+    pub fn verif_probation(
+        &self,
+    ) -> Option<(u8, u8, Vec<(SocketAddr, u16, u16, u8, u8, bool)>)> {
+        self.probation.lock().as_ref().map(|p| {
+            (
+                p.total_packets,
+                p.max_packets,
+                p.candidates
+                    .iter()
+                    .map(|c| {
+                        (
+                            c.addr,
+                            c.first_seq,
+                            c.last_seq,
+                            c.packet_count,
+                            c.consecutive_count,
+                            c.has_marker,
+                        )
+                    })
+                    .collect(),
+            )
+        })
+    }
+
+    pub fn verif_set_remote_addr_from_selected_pair(&self, addr: SocketAddr) {
+        self.set_remote_addr_from_selected_pair(addr, "verif");
+    }
+
+    pub fn verif_set_remote_addr_from_signaling(&self, addr: SocketAddr) {
+        self.set_remote_addr_from_signaling(addr, "verif");
+    }
+}
+
 #[async_trait]
 impl PacketReceiver for IceConn {
     async fn receive(&self, packet: Bytes, addr: SocketAddr, marshal_buf: &mut Vec<u8>) {
